@@ -28,7 +28,7 @@ from fractions import Fraction
 from common import CORPUS, Check, call, import_repo, lst, rat, run_check, run_driver
 
 from c06 import (BOUND_SLACK, DYADIC_THRS, HALF, REFINE_TOL, TORCH_DTYPE, DTYPE_MIX, eff_abs_sum, float64_special,
-                 exact_offsets, explain_bound_failure, fail, half_precision_refine, half_refine_probe, layouts_for, memory_layout, is_p1_raise, patch_of, patch_size, thr_in_dtype)
+                 exact_offsets, explain_bound_failure, fail, half_precision_refine, half_refine_probe, half_tol, layouts_for, memory_layout, is_p1_raise, patch_of, patch_size, thr_in_dtype)
 
 THEOREMS = [
     "SleapVerif.C07.global_attains_max",
@@ -515,9 +515,14 @@ def run_case(chk, I, case, mline, f07_known):
                 z, az = float(P.sum()), eff_abs_sum(np, P, a[s_, c_], p)
                 if abs(z) <= 1e-3 * az:
                     continue  # knife-edge: the half-precision sum may round the normaliser to exactly 0
-                tol = REFINE_TOL[half_in[1]] * max(1.0, (p + 1) / 2 * az / abs(z))
+                if fb[0] is None or fb[1] is None:
+                    continue
+                tol = half_tol(half_in[1], (fb[0] - g_[0], fb[1] - g_[1]), az / abs(z))
+                st = chk.extra.setdefault("half_vs_float32_err_over_tol", {})
                 for u, v in ((fa[0], fb[0]), (fa[1], fb[1])):
-                    if u is None or v is None or abs(u) == float("inf") or not abs(u - v) <= tol:
+                    if u is not None and abs(u) != float("inf"):
+                        st[half_in[1]] = max(st.get(half_in[1], 0.0), abs(u - v) / tol)
+                    if u is None or abs(u) == float("inf") or not abs(u - v) <= tol:
                         return False
             return True
 
@@ -705,8 +710,19 @@ def main(chk: Check):
             hc = I.tensor(case)
             ref32 = I.full(hc.float(), case["thr"], "integral", case["p"])
             got = I.full(hc, case["thr"], "integral", case["p"])
-            still = (got and got[0] == "raise") or str(got) != str(ref32)
-            chk.known_replay(ent["id"], still_fails=bool(still), detail=f"half={got} float32={ref32}")
+            def differs(g_, r_):
+                return (g_ and g_[0] == "raise") or any(
+                    (x is None) != (y is None) or (x is not None and not abs(x - y) <= 1e-3) for fa, fb in zip(g_, r_) for x, y in zip(fa[:2], fb[:2]))
+            still = differs(got, ref32)
+            det = f"half={got} float32={ref32}"
+            if ent.get("witness_bf16"):
+                c2 = witness_case(ent["witness_bf16"])
+                c2["dtype"] = "bf16"
+                t2 = I.tensor(c2)
+                r2, g2 = I.full(t2.float(), c2["thr"], "integral", c2["p"]), I.full(t2, c2["thr"], "integral", c2["p"])
+                still = still or differs(g2, r2)
+                det += f"; bf16 witness half={g2} float32={r2}"
+            chk.known_replay(ent["id"], still_fails=bool(still), detail=det)
         elif ent["signature"] == "refinement_patch_crosses_border":
             still, details = True, []
             for wt in (ent["witness"], ent.get("witness_symmetric")):  # toward-centre witness, symmetric-bump witness
